@@ -1,0 +1,25 @@
+//go:build verif
+
+// Machine-checked contracts for package ros1msg (comment-only; compiled only under the build tag "verif";
+// read by /verif/govc — see /verif/DESIGN.md §2.4).
+package ros1msg
+
+/*@ func parseArrayType
+    safety C19
+@*/
+
+/*@ func splitLines
+    safety C19
+    requires predicate != nil
+    ensures len(result) >= 1
+    loop 1 invariant chunk != nil && (iter > 0 ==> len(chunks) > 0 || ghost(sb_len, chunk) > 0) && ghost(sb_len, chunk) >= 0
+@*/
+
+/*@ func ParseMessageDefinition
+    safety C19
+@*/
+
+/*@ func resolveDependentFields
+    safety C19
+    requires dependencies != nil && resolving != nil
+@*/
